@@ -24,6 +24,7 @@ package rulepath
 import (
 	"fmt"
 	"sort"
+	"sync"
 
 	"github.com/wmnsk/go-pfcp/message"
 	"pgregory.net/rapid"
@@ -36,12 +37,16 @@ import (
 
 type Case struct {
 	Msgs [][]stack.RuleOp `json:"msgs"` // Msgs[0] is the establishment
+	// Fails: (message, op) pairs of Create IEs in modifications whose netlink request the data plane refuses once (ENOMEM, before
+	// it takes effect): the rule does not exist afterwards, and the SMF's next Create for it must be passed on like any other
+	Fails [][2]int `json:"fails,omitempty"`
 }
 
 type Stats struct {
 	SameNumber    bool // a rule was removed (or updated) while a rule of another kind with the same id existed
 	RefusedCreate bool // a Create for a rule that exists (refused by the data plane)
 	Rejected      bool // such a message was not answered 'accepted': the case ends there, nothing is concluded
+	Retried       bool // a Create for a rule whose earlier Create the data plane had refused (transient error)
 	Ops           int
 }
 
@@ -103,6 +108,7 @@ func Gen(t *rapid.T) Case {
 		var ops []stack.RuleOp
 		named := map[string]bool{}
 		bar := map[string]bool{}
+		failing := map[int]bool{}
 		n := rapid.IntRange(1, 6).Draw(t, "ops")
 		for i := 0; i < n; i++ {
 			kind := rapid.SampledFrom(kinds).Draw(t, "kind")
@@ -129,10 +135,17 @@ func Gen(t *rapid.T) Case {
 				bar[verb] = true
 			}
 			named[fmt.Sprintf("%s%d", kind, id)] = true
+			if m > 0 && verb == "create" && !have[kind][id] && kind != "PDR" && rapid.IntRange(0, 5).Draw(t, "enomem") == 0 {
+				failing[len(ops)] = true
+				c.Fails = append(c.Fails, [2]int{m, len(ops)})
+			}
 			ops = append(ops, build(t, verb, kind, id, have))
 		}
 		// apply to the model after the whole message has been drawn: ops of one message do not see each other
-		for _, o := range ops {
+		for oi, o := range ops {
+			if failing[oi] {
+				continue // refused by the data plane: the rule does not exist
+			}
 			switch o.Verb {
 			case "create":
 				have[o.Kind][o.ID] = true
@@ -172,7 +185,29 @@ func Run(c Case, assert map[string]bool) (v *vcore.Violation, stt Stats) {
 		have[k] = map[uint32]bool{}
 	}
 	var up uint64
+	var failMu sync.Mutex
+	toFail := map[simkernel.RuleKey]bool{}
+	wasRefused := map[string]bool{}
+	f.D.K.Fail = func(q *simkernel.Request) int {
+		key, op := simkernel.Classify(q)
+		failMu.Lock()
+		defer failMu.Unlock()
+		if op == "create" && toFail[key] {
+			delete(toFail, key)
+			return 12 // ENOMEM
+		}
+		return 0
+	}
 	for mi, ops := range c.Msgs {
+		failing := map[int]bool{}
+		failMu.Lock()
+		for _, fl := range c.Fails {
+			if fl[0] == mi && fl[1] < len(ops) && mi > 0 {
+				failing[fl[1]] = true
+				toFail[simkernel.RuleKey{Kind: ops[fl[1]].Kind, SEID: up, ID: uint64(ops[fl[1]].ID)}] = true
+			}
+		}
+		failMu.Unlock()
 		f.D.K.TakeLog()
 		var o *stack.Obs
 		if mi == 0 {
@@ -205,7 +240,7 @@ func Run(c Case, assert map[string]bool) (v *vcore.Violation, stt Stats) {
 						dup = true
 					}
 				}
-				if dup {
+				if dup || len(failing) > 0 {
 					// the message re-creates a rule the session has: go-upf answers 'accepted' and leaves the installed rule alone,
 					// but rejecting the message is as good an answer; what was applied of it is then unknown to this model
 					stt.Rejected = true
@@ -231,8 +266,12 @@ func Run(c Case, assert map[string]bool) (v *vcore.Violation, stt Stats) {
 			}
 			seen[rq{key, op}] = append(seen[rq{key, op}], q.Errno)
 		}
-		for _, op := range ops {
+		for oi, op := range ops {
 			stt.Ops++
+			rid := fmt.Sprintf("%s%d", op.Kind, op.ID)
+			if op.Verb == "create" && wasRefused[rid] && !failing[oi] {
+				stt.Retried = true
+			}
 			for _, k := range kinds {
 				if k != op.Kind && have[k][op.ID] && op.Verb != "create" {
 					stt.SameNumber = true
@@ -253,11 +292,21 @@ func Run(c Case, assert map[string]bool) (v *vcore.Violation, stt Stats) {
 			if len(got) > 1 {
 				return vcore.Violatef("ie-passed-on-twice", "message %d %s: %s %s %d reached the data plane %d times", mi, brief(ops), op.Verb, op.Kind, op.ID, len(got)), stt
 			}
+			if failing[oi] {
+				if got[0] != 12 {
+					return vcore.Violatef("harness", "message %d: the refusal arranged for %s %s %d did not take place (errno %d)", mi, op.Verb, op.Kind, op.ID, got[0]), stt
+				}
+				wasRefused[rid] = true
+				continue
+			}
 			if got[0] != 0 {
 				return vcore.Violatef("ie-refused-by-data-plane", "message %d %s: %s %s %d was answered errno %d by the data plane although the session's history makes it legal", mi, brief(ops), op.Verb, op.Kind, op.ID, got[0]), stt
 			}
 		}
-		for _, op := range ops {
+		for oi, op := range ops {
+			if failing[oi] {
+				continue
+			}
 			switch op.Verb {
 			case "create":
 				have[op.Kind][op.ID] = true
@@ -265,6 +314,11 @@ func Run(c Case, assert map[string]bool) (v *vcore.Violation, stt Stats) {
 				delete(have[op.Kind], op.ID)
 			}
 		}
+		failMu.Lock()
+		for k := range toFail {
+			delete(toFail, k) // an arranged refusal that no request met does not wait for a later message
+		}
+		failMu.Unlock()
 	}
 	return nil, stt
 }
